@@ -7,3 +7,9 @@ from contracts.C06_run_checks import ArrayRunChecks, ColumnRunChecks, ContainerR
 
 # MultiIndexValidate: own file (C05_multiindex_validate.py)
 CONTRACTS = [ContainerValidate, SeriesSchemaValidate, ArrayValidate, IndexValidate, ArrayRunChecks, ColumnRunChecks, ContainerRunChecks, CoerceDtypeHelper]
+
+# "Transforming methods return a new schema and leave the receiver unchanged": the frame obligation of every transformation (C15)
+from contracts.C15_container import CONTRACTS as SCHEMA_OPS
+from contracts.C15_components import CONTRACTS as COMPONENT_OPS  # (the callee contracts the schema operations are verified against)
+
+CONTRACTS = list(CONTRACTS) + list(SCHEMA_OPS) + list(COMPONENT_OPS)
